@@ -283,14 +283,25 @@ impl<Point: Coordinate+Coordinate2D, Label: Copy> GraphPath<Point, Label> {
     pub (crate) fn detect_collisions(&mut self, collide_from: Range<usize>, collide_to: Range<usize>, accuracy: f64) -> bool {
         // Find all of the collision points
         let all_collisions      = self.find_collisions(collide_from, collide_to, accuracy);
+        #[cfg(flo_curves_verif)]
+        if verif_collide_trace::active() {
+            verif_collide_trace::push(verif_collide_trace::Event::Graph("start", self.verif_dump()));
+            verif_collide_trace::push(verif_collide_trace::Event::Collisions(all_collisions.iter().map(|c| (c.edge_1.start_idx, c.edge_1.edge_idx, c.edge_1_t, c.edge_2.start_idx, c.edge_2.edge_idx, c.edge_2_t)).collect()));
+        }
         if all_collisions.is_empty() {
             let collided_at_point = self.combine_overlapping_points(accuracy);
+            #[cfg(flo_curves_verif)]
+            if verif_collide_trace::active() { verif_collide_trace::push(verif_collide_trace::Event::Graph("combined", self.verif_dump())); }
             self.remove_all_very_short_edges();
+            #[cfg(flo_curves_verif)]
+            if verif_collide_trace::active() { verif_collide_trace::push(verif_collide_trace::Event::Graph("end", self.verif_dump())); }
             return collided_at_point;
         }
 
         // Add in any extra points that are required by the collisions we found
         let all_collisions      = self.create_collision_points(all_collisions);
+        #[cfg(flo_curves_verif)]
+        if verif_collide_trace::active() { verif_collide_trace::push(verif_collide_trace::Event::CollisionPoints(all_collisions.iter().map(|(_, point_idx)| *point_idx).collect())); }
 
         // Organize the collisions by edge
         let collisions_by_edge  = self.organize_collisions_by_edge(all_collisions);
@@ -418,12 +429,20 @@ impl<Point: Coordinate+Coordinate2D, Label: Copy> GraphPath<Point, Label> {
 
         // Finish up by checking that we haven't broken consistency
         self.check_following_edge_consistency();
+        #[cfg(flo_curves_verif)]
+        if verif_collide_trace::active() { verif_collide_trace::push(verif_collide_trace::Event::Graph("split", self.verif_dump())); }
 
         self.recalculate_reverse_connections();
+        #[cfg(flo_curves_verif)]
+        if verif_collide_trace::active() { verif_collide_trace::push(verif_collide_trace::Event::Graph("recalc", self.verif_dump())); }
         self.combine_overlapping_points(accuracy);
+        #[cfg(flo_curves_verif)]
+        if verif_collide_trace::active() { verif_collide_trace::push(verif_collide_trace::Event::Graph("combined", self.verif_dump())); }
         self.remove_all_very_short_edges();
 
         self.check_following_edge_consistency();
+        #[cfg(flo_curves_verif)]
+        if verif_collide_trace::active() { verif_collide_trace::push(verif_collide_trace::Event::Graph("end", self.verif_dump())); }
 
         true
     }
@@ -540,6 +559,8 @@ impl<Point: Coordinate+Coordinate2D, Label: Copy> GraphPath<Point, Label> {
         let mut nearby_points = self.sweep_for_nearby_points(accuracy);
 
         if let Some(nearby_point) = nearby_points.next() {
+            #[cfg(flo_curves_verif)]
+            verif_collide_trace::push(verif_collide_trace::Event::CombineBegin);
             // Remap points according to whatever is nearest
             let min_distance_squared    = accuracy * accuracy;
             let mut remapped_points     = (0..self.points.len())
@@ -564,6 +585,8 @@ impl<Point: Coordinate+Coordinate2D, Label: Copy> GraphPath<Point, Label> {
                 let p2_pos              = if let Some(pos) = p2_pos { *pos } else { self.points[*p2_idx].position };
 
                 if !moved || Self::point_is_near(&p1_pos, &p2_pos, min_distance_squared) {
+                    #[cfg(flo_curves_verif)]
+                    verif_collide_trace::push(verif_collide_trace::Event::Combined(p1_orig_idx, p2_orig_idx));
                     // Remap both points to a common target position
                     let pos         = Self::snap_points(&p1_pos, &p2_pos);
                     let remap_idx   = usize::min(*p1_idx, *p2_idx);
@@ -753,4 +776,74 @@ where
             }
         }
     }
+}
+
+#[cfg(flo_curves_verif)]
+impl<Point: Coordinate+Coordinate2D, Label: Copy> GraphPath<Point, Label> {
+    ///
+    /// (verification hook, only with `--cfg flo_curves_verif`) the private structure of this graph: for every point its position, its
+    /// edges (end_idx, following_edge_idx, kind, cp1, cp2) and its connected_from list
+    ///
+    pub fn verif_dump(&self) -> Vec<verif_collide_trace::PointDump> {
+        self.points.iter().map(|point| verif_collide_trace::PointDump {
+            position:       (point.position.x(), point.position.y()),
+            edges:          point.forward_edges.iter().map(|edge| {
+                let kind = match edge.kind {
+                    super::GraphPathEdgeKind::Uncategorised => 0u8,
+                    super::GraphPathEdgeKind::Visited       => 1u8,
+                    super::GraphPathEdgeKind::Exterior      => 2u8,
+                    super::GraphPathEdgeKind::Interior      => 3u8
+                };
+                (edge.end_idx, edge.following_edge_idx, kind, (edge.cp1.x(), edge.cp1.y()), (edge.cp2.x(), edge.cp2.y()))
+            }).collect(),
+            connected_from: point.connected_from.iter().cloned().collect()
+        }).collect()
+    }
+}
+
+///
+/// (verification hook, only with `--cfg flo_curves_verif`) records what `detect_collisions` did: the private graph structure
+/// between its stages, the collisions it applied, the point pairs `combine_overlapping_points` merged and the edges
+/// `remove_all_very_short_edges` removed
+///
+#[cfg(flo_curves_verif)]
+pub mod verif_collide_trace {
+    use std::cell::RefCell;
+
+    /// One point of a graph: position, edges as (end_idx, following_edge_idx, kind, cp1, cp2), connected_from
+    #[derive(Clone, Debug, PartialEq)]
+    pub struct PointDump {
+        pub position:       (f64, f64),
+        pub edges:          Vec<(usize, usize, u8, (f64, f64), (f64, f64))>,
+        pub connected_from: Vec<usize>
+    }
+
+    #[derive(Clone, Debug, PartialEq)]
+    pub enum Event {
+        /// The graph at a stage of detect_collisions ("start", "split", "recalc", "combined", "end")
+        Graph(&'static str, Vec<PointDump>),
+        /// The collisions in the order find_collisions returned them: (edge_1 start_idx, edge_1 edge_idx, edge_1_t, edge_2 start_idx, edge_2 edge_idx, edge_2_t)
+        Collisions(Vec<(usize, usize, f64, usize, usize, f64)>),
+        /// The point index create_collision_points assigned to each collision
+        CollisionPoints(Vec<usize>),
+        /// combine_overlapping_points found at least one pair of nearby points
+        CombineBegin,
+        /// combine_overlapping_points remapped this pair of nearby points to a common target
+        Combined(usize, usize),
+        /// remove_all_very_short_edges called remove_edge(start_idx, edge_idx)
+        Removed(usize, usize),
+    }
+
+    thread_local! { static TRACE: RefCell<Option<Vec<Event>>> = RefCell::new(None); }
+
+    /// Starts recording on this thread
+    pub fn start() { TRACE.with(|t| *t.borrow_mut() = Some(vec![])); }
+
+    /// Stops recording and returns the events
+    pub fn take() -> Vec<Event> { TRACE.with(|t| t.borrow_mut().take().unwrap_or_default()) }
+
+    /// True while recording
+    pub fn active() -> bool { TRACE.with(|t| t.borrow().is_some()) }
+
+    pub (crate) fn push(event: Event) { TRACE.with(|t| if let Some(events) = t.borrow_mut().as_mut() { events.push(event); }); }
 }
